@@ -286,7 +286,7 @@ def main(argv=None) -> int:
       errors.append(f'shard {r["name"]} crashed: {r["error"][:800]}')
       continue
     if r.get('confirmed', 0) + r.get('violated', 0) == 0 and not r.get('allow_vacuous'):
-      if r.get('closed') or a.tier == 'quick':
+      if r.get('closed'):
         errors.append(f'shard {r["name"]} is vacuous: no path reached the end of the harness '
                       f'(paths={r.get("paths")}, ignored={r.get("ignored")}, unknown={r.get("unknown")})')
       else:
